@@ -565,6 +565,23 @@ def run_real(mod, rng, controlled=True, force=None):
             return asyncio.run(ex(*pre_args)) if is_async else ex(*pre_args)
         control.run_controlled(prelude, control.Script(rng=random.Random(rng.randrange(1 << 30))), timeout=40)
         info["prelude_executor_args"] = repr(pre_args)
+    if controlled and rng.random() < 0.15:
+        # the DAG has a past: other DAGs were COMPOSED from it (any inputs / outputs; refusals are fine): composing never
+        # changes what the original returns
+        import warnings as _w
+        lazy = [i for i, x in top.exec_nodes.items() if type(x).__name__ == "LazyExecNode"]
+        for _ in range(rng.randint(1, 2)):
+            if not lazy:
+                break
+            outs_ = rng.sample(lazy, rng.randint(1, min(2, len(lazy))))
+            ins_ = [i for i in rng.sample(lazy, rng.randint(0, min(2, len(lazy)))) if i not in outs_]
+            try:
+                with _w.catch_warnings():
+                    _w.simplefilter("ignore")
+                    top.compose("composed_in_the_past", ins_, outs_)
+            except BaseException:  # noqa: BLE001
+                pass
+        info["prelude_compose"] = True
     if controlled:
         R, outcome = control.run_controlled(call, control.Script(rng=random.Random(rng.randrange(1 << 30))), timeout=40)
         info["dispatches"] = sum(1 for e in R.log if e[1] == "dispatch")
